@@ -62,6 +62,8 @@ func checkC15(r *Report) {
 	importKeyRule(r, p, "C15.g/IMPORT-KEY-VERSION")
 	nDF := importDepthFirstRule(r, p, "C15.h/IMPORT-DEPTH-FIRST")
 	r.floor("C15.h/IMPORT-DEPTH-FIRST", "refills of the work list of imports", nDF, 1)
+	nBC := boolCaseRule(r, p, "C15.j/BOOL-CASE")
+	r.floor("C15.j/BOOL-CASE", "boolean string types of package maven with an interpolate method", nBC, 2)
 	nMA := mergeAppendOwnRule(r, p, "C15.i/MERGE-APPEND-OWN")
 	r.floor("C15.i/MERGE-APPEND-OWN", "appends stored into the receiver by methods of package maven", nMA, 3)
 }
